@@ -509,7 +509,8 @@ def glue_part(chk):
         chk.violation("glue-correspondence", "model (Parse/DepsGlue.v) and llvm::sys::path / the glue statements disagree on %d of %d cases" % (nd, len(reqs)),
                       dict(broken="correspondence: Parse.DepsGlue vs lib/llvm/Support/Path.cpp", examples=chk.notes.get("disagreements_glue")), found_input=False,
                       broken="correspondence: Parse.DepsGlue")
-    chk.sample(dict(kind="glue", request=reqs[5], implementation=repr(unhx(impl[5]))))
+    k = reqs.index("abspath %s %s %s" % (hx(cwd), hx(b"/w/x y"), hx(b"./a")))
+    chk.sample(dict(kind="glue", word="./a", working_directory="/w/x y", request=reqs[k], implementation=repr(unhx(impl[k]))))
 
 
 # ------------------------------------------------------------------ C11: the link to rebuild decisions, through the CLI
@@ -570,6 +571,12 @@ def cli_scenario(chk, llb, S, style, name, mode, event, variant, malformed=None)
                             malformed_hex=hx(malformed) if malformed is not None else None),
               path=repr(P), spelled_in_deps_file=repr(spelled), deps_file_repr=repr(data), deps_file_hex=hx(data), working_directory=wd, sandbox=S, builds=log,
               oracle="executions of the command counted through its side-effect file, judged by the harness without the model")
+    # what the glue model (Parse/DepsGlue.v) says about this file: the keys and the success flag
+    mwd = os.path.join(S, wd).encode() if wd else b""
+    rcm, mo, me = vlib.run_lines(sides(chk).model, ["process %d %s %s %s" % (1 if style == "makefile" else 2, hx(S.encode()), hx(mwd), hx(data))])
+    mok, mkeys = mo[0].split(" ")[0] == "1", [unhx(x) for x in mo[0].split(" ")[1].split(",")] if mo[0].split(" ")[1] != "." else []
+    norm = lambda k: os.path.normpath(os.path.join(S.encode(), k))
+    rp["model"] = dict(succeeds=mok, keys=[repr(k) for k in mkeys], tracks_the_path=norm(P) in [norm(k) for k in mkeys])
     if malformed is not None:
         rc, n = build("build with the malformed dependency file")
         if rc == 0:
@@ -628,6 +635,7 @@ def cli_part(chk):
                         scen.append((style, name, mode, event, i))
                         i += 1
     builds = ok = 0
+    mism = []
     for k, (style, name, mode, event, variant) in enumerate(scen):
         if style == "makefile" and name.startswith(b":"):
             continue
@@ -637,6 +645,9 @@ def cli_part(chk):
         chk.count(("cli", style, name, mode, event, variant % 4) if event != "none" else None)
         if k == 2:
             chk.sample(dict(kind="cli-history", scenario=rp["scenario"], deps_file_repr=rp["deps_file_repr"], builds=[(b["step"], b["exit"], b["executions_so_far"]) for b in rp["builds"]]))
+        observed = None if event == "none" or key in ("cli-first-build", "spurious-reexecution") else (key is None)
+        if observed is not None and observed != rp["model"]["tracks_the_path"]:
+            mism.append(dict(scenario=rp["scenario"], model=rp["model"], implementation_reexecutes=observed, deps_file_repr=rp["deps_file_repr"]))
         if key:
             # the dependency-info parser's inputs are not resolved against the working directory: one finding, one key
             if key == "change-not-honoured" and style == "dependency-info" and mode == "relative-wd":
@@ -656,11 +667,20 @@ def cli_part(chk):
         key, what, rp = cli_scenario(chk, llb, S, style, b"hdr", "relative", "none", 0, malformed=data)
         builds += len(rp["builds"])
         chk.count(("cli-malformed", style, data))
+        if (key is None) != (not rp["model"]["succeeds"]) and key != "malformed-not-run":
+            mism.append(dict(scenario=rp["scenario"], model=rp["model"], implementation_build_fails=(key is None)))
         if key:
             chk.violation(key, what, rp, found_input=True, broken="c11 oracle (a malformed dependency file fails the command) on llbuild buildsystem build")
         else:
             ok += len(rp["builds"])
             shutil.rmtree(S, ignore_errors=True)
+    chk.cov["cli_model_mismatches"] = len(mism)
+    if mism:
+        # the implementation does what the property asks (or fails it in another way) where the glue model says otherwise
+        chk.violation("glue-correspondence-cli", "the glue model (Parse/DepsGlue.v: keys / success flag of a dependency file) and llbuild disagree on %d histories: "
+                      "the model is out of date with lib/BuildSystem/ShellCommand.cpp" % len(mism),
+                      dict(broken="correspondence: Parse.DepsGlue.process_discovered vs ShellCommand::processDiscoveredDependencies", examples=mism[:4]),
+                      found_input=False, broken="correspondence: Parse.DepsGlue.process_discovered")
     chk.cov["cli_scenarios"] = len(scen) + len(mal)
     chk.cov["cli_builds"] = builds
     chk.cov["traces_validated_against_impl"] = ok
